@@ -134,7 +134,7 @@ func c05(c *ctx) {
 			// a few sessions, with accepted and rejected establishments / modifications before the end
 			var mine []*hsess
 			for k := 0; k < 1+r.Intn(3); k++ {
-				shape := []int{2, 2, 0, 4, 1}[r.Intn(5)]
+				shape := []int{2, 4, 0, 4, 1}[r.Intn(5)]
 				pdrs, fars, qers := w.genSession(shape)
 				w.nextCP++
 				switch r.Intn(5) {
@@ -145,7 +145,7 @@ func c05(c *ctx) {
 				}
 				if h, _ := w.est(0, w.nodes[0], w.nextCP, pdrs, fars, qers, "c05"); h != nil {
 					mine = append(mine, h)
-					if shape == 4 && r.Intn(2) == 0 { // an accepted modification that removes a rule from the middle of the lists
+					if shape == 4 { // an accepted modification that removes a rule from the middle of the lists
 						w.mod(0, h.up, modReq{rp: []uint32{2}, rf: []uint32{2}, rq: []uint32{2}}, "remove-middle")
 					}
 					if r.Intn(3) == 0 { // a modification rejected after its create/update step
